@@ -120,7 +120,7 @@ def _field(n, variant):
         drops[0] = DiffuseDroplet(c0, 4.0, interface_width=1.0)
         centres[0] = np.array([centres[0][0], 15.5])
     field = Emulsion(drops).get_phasefield(grid)
-    kw = [dict(), dict(interface_width=1.0), dict(interface_width=0.7), dict(modes=2, interface_width=1.0)][variant % 4]
+    kw = [dict(), dict(modes=2), dict(interface_width=0.7), dict(modes=2, interface_width=1.0)][variant % 4]
     return field, centres, kw
 
 
@@ -238,7 +238,14 @@ def run(out: core.Outcome) -> None:
                     for procs in ([w] if w > 1 else [1]) + (["auto"] if w >= n else []):
                         if procs == 1:
                             continue
-                        res, ev = _run_forced("refine", lambda: locate_droplets(field, refine=True, num_processes=procs, **kw), sched, w, "p")
+                        try:
+                            res, ev = _run_forced("refine", lambda: locate_droplets(field, refine=True, num_processes=procs, **kw), sched, w, "p")
+                        except Exception as exc:  # noqa: BLE001
+                            out.evaluations += 1
+                            out.violation({"scenario": "refine", "config": name, "variant": variant, "schedule": list(sched), "num_processes": procs,
+                                           "fails": [f"parallel run raised {type(exc).__name__}: {str(exc)[:120]} (the serial run returns {len(serial)} droplets)"]},
+                                          signature="unpickled-droplet-read-only" if "NoneType" in str(exc) else None)
+                            continue
                         out.evaluations += 1
                         _judge(out, "refine", name, variant, sched, procs, res, serial, ev, n, w, none, expect_out, traces, trace_cases)
                 # ---------------- (B) frames of a storage
